@@ -1,21 +1,65 @@
 """C10 - the client returns exactly what the report says."""
 import glob
+import hashlib
 import json
 import os
 import re
 from pathlib import Path
 
 from gen import c10_tables
-from lib import c10_report as R, configs, framework as fw, runner
+from lib import c10_report as R, configs, framework as fw, qconv, runner
 
 META = {
     'props': 'Props/C10.v',
-    'claimed': False,
-    'level_text': 'TODO',
-    'level_note': 'TODO',
+    'claimed': True,
+    'level_text': (
+        'Proof (partial): 18 Coq theorems about an executable model of GeophiresXResult, all closed under the global context. For EVERY '
+        'label, indentation, padding (incl. a value that overflows its column), blank-free value token (negative, huge, 1,234.5, N/A) '
+        'and unit, a printed scalar line is read back as exactly that token and unit (C10_roundtrip_unit/_bare, C10_line_is_found, '
+        'C10_equal_sign_partial); for every number of rows and columns the add-on style tables and the production-profile rows come '
+        'back cell by cell, in order, none dropped (C10_table, C10_profile_rows); as_csv carries one row per field with a value and one '
+        'per table cell at a stated position with its year, value and unit (C10_csv_fields, C10_csv_table, _defined); over the tables '
+        'regenerated from the CURRENT sources (252 client fields x every label any f.write of the five report writers can print) no '
+        'field marker matches a line with another label (C10_no_foreign_match, C10_no_match_in_other_lines). Refuted on the pinned '
+        'tree and stated as such: the result is NOT independent of set.pop() when one label is printed with two contents '
+        '(C10_deterministic_refuted; proved under the hypothesis that all copies print the same token and unit: '
+        'C10_deterministic_partial), and an equal-sign label printed with two blanks is not found (C10_equal_sign_label_found_refuted). '
+        'The model is tied to the current client by executing the real client on stored, freshly simulated (every economic model x '
+        'end-use x plant cell, output-unit conversions, examples) and synthetic reports and comparing every field, table, the raising '
+        'behaviour and the csv rows inside Coq (vm_compute); the property itself is evaluated on the real client against an '
+        'independent tokenisation of each report, under PYTHONHASHSEED 0/1/2, and the .json quantities are compared with the printed '
+        'figures by the Coq checker json_agrees (sound: C10_json_rounds). Only tied, not proved: header reconstruction of the two '
+        'production profiles, the carbon-revenue view, _parse_number against Python float().'),
+    'level_note': (
+        'Trusted: Coq kernel + vm_compute; the Python harness (runs the simulator and the client, the independent tokeniser, the '
+        'literals handed to Coq); Python float()/int()/csv/re/str semantics are modelled by hand for ASCII text (reports are ASCII); '
+        'a float returned by the client is compared with the decimal the model read within 1e-15 relative. Three defects of the '
+        'pinned tree are recorded as known findings (C10-F1 two-unit duplicate label + set.pop(), C10-F2 BICYCLE equal-sign label, '
+        'C10-F3 .json overwritten by the add-on economics object).'),
     'technique': 'Coq proof about an executable Gallina model + kernel-evaluated correspondence with the implementation',
-    'rule': 'TODO',
-    'trusted_base': [], 'modelled': [], 'assumptions': [],
+    'rule': (
+        'reports = corpus seeds + every stored report under tests/ + fresh simulations (all economic model x end-use x plant cells, '
+        'random configurations, output-unit conversions of quantities printed in two sections, the runnable examples) + synthetic '
+        'variants of those (values overflowing their column, negative, huge, thousands separators, N/A, other paddings, sections '
+        'removed; a label printed twice keeps one value). Each report is parsed by the real client under hash seeds 0, 1, 2; every '
+        'exposed field, every table cell, every csv row and every .json quantity with a same-named report line is one evaluation; '
+        'a report is distinct/non-trivial by (origin, set of fields the client filled, set of profile tables present)'),
+    'trusted_base': ['Coq 8.16.1 kernel + vm_compute (no native_compute)',
+                     'all C10 theorems: Closed under the global context (no axioms)',
+                     'hand-written model coq/Model/ResultParser.v tied to geophires_x_client/geophires_x_result.py by kernel-evaluated '
+                     'correspondence on real, stored and synthetic reports (tools/props/C10.py, tools/lib/c10_report.py: unverified Python)',
+                     'generators tools/gen/c10_tables.py (client field table read from the live class; writer labels from an ast walk of '
+                     'the five writer modules with name expressions evaluated on a live model; fail-closed)'],
+    'modelled': ['GeophiresXResult.__init__', '_get_result_field', '_get_equal_sign_delimited_field', '_get_profile_lines',
+                 '_get_data_from_profile_lines', '_extract_addons_style_table_data', '_get_revenue_and_cashflow_profile',
+                 '_get_carbon_revenue_or_ccus_legacy_profile', '_parse_number', 'as_csv (rows before csv quoting)',
+                 'str.replace/split/strip, re.sub/re.split on whitespace runs, set() as the list of distinct elements, set.pop() as an '
+                 'arbitrary choice, int()/float() literal grammar incl. underscores'],
+    'assumptions': ['reports are ASCII without carriage returns (checked per report; others are counted and skipped)',
+                    'Python float() returns the double nearest to the decimal literal: the client value is accepted within 1e-15 relative of '
+                    'the exact decimal the model parsed',
+                    'csv.writer quoting/escaping and repr(float) are not modelled: csv rows are compared after csv.reader, values as text',
+                    'metadata entries and _get_end_use_option are checked by the tokenisation oracle only through the equal-sign fields'],
     'fingerprint': [('src/geophires_x_client/geophires_x_result.py', 'GeophiresXResult._get_result_field'),
                     ('src/geophires_x_client/geophires_x_result.py', 'GeophiresXResult._get_equal_sign_delimited_field'),
                     ('src/geophires_x_client/geophires_x_result.py', 'GeophiresXResult._extract_addons_style_table_data'),
@@ -23,7 +67,8 @@ META = {
                     ('src/geophires_x_client/geophires_x_result.py', 'GeophiresXResult._get_profile_lines'),
                     ('src/geophires_x_client/geophires_x_result.py', 'GeophiresXResult._parse_number'),
                     ('src/geophires_x_client/geophires_x_result.py', 'GeophiresXResult.as_csv'),
-                    ('src/geophires_x_client/geophires_x_result.py', 'GeophiresXResult.__init__')],
+                    ('src/geophires_x_client/geophires_x_result.py', 'GeophiresXResult.__init__'),
+                    ('src/geophires_x/GEOPHIRESv3.py', 'main')],
 }
 GENERATORS = (c10_tables.gen_fields, c10_tables.gen_labels)
 REQ = ['Model.ResultParser', 'Gen.C10Fields']
@@ -157,6 +202,14 @@ def oracle(ctx, it, res, fields, heads):
             hu = [m.group(1) for m in (re.search(r'\(([^()]*)\)$', h) for h in got[0][1:]) if m]
             if units and hu != units:
                 out.append((f'table:{key}:units', f'{key}: hard-coded column units differ from the printed unit line', units, hu))
+    # the carbon view repeats four columns of the revenue table
+    cv, rv = result.get('CARBON REVENUE PROFILE'), R.expected_table(text, R.REV)
+    if cv is not None and rv is not None:
+        idx = [heads['revenue'].index(h) for h in cv[0] if h in heads['revenue']]
+        want = [[r[i] for i in idx] for r in rv[1] if len(r) == len(heads['revenue'])]
+        if len(idx) != len(cv[0]) or cv[1:] != want:
+            out.append(('table:CARBON REVENUE PROFILE:rows', 'the carbon revenue view is not the carbon columns of the printed revenue table',
+                        want[:2], cv[:3]))
     # csv
     if res['csv'] is None:
         out.append(('csv:raised', 'as_csv raises on this report', 'csv text', res['csv_raised']))
@@ -185,10 +238,11 @@ def unit_values():
 
 
 def json_oracle(it, uv):
-    """the .json next to the report carries the quantity each equally-named report line prints"""
-    out = []
+    """the .json next to the report carries the quantity each equally-named report line prints.
+    -> (violations decided here, [(key, what, token, quantity)] figures to be compared by Coq's json_agrees)"""
+    out, cmp = [], []
     if not it.get('json'):
-        return out, 0
+        return out, cmp
     js = json.loads(it['json'])
     by = {}
     for k, v in js.items():
@@ -197,29 +251,30 @@ def json_oracle(it, uv):
                 if nm:
                     by.setdefault(nm, v)
     snap = it.get('snap') or {}
-    add_names = {d.get('name') for comp in ('addeconomics', 'sdacgteconomics') for d in (snap.get(comp) or {}).values()
-                 if isinstance(d, dict) and d.get('k') == 'out'}
-    n = 0
+    outs = lambda comps: [d for c in comps for d in (snap.get(c) or {}).values() if isinstance(d, dict) and d.get('k') == 'out']
+    add_names = {d.get('name') for d in outs(('addeconomics', 'sdacgteconomics'))}
+    base = {nm: d['name'] for d in outs(('reserv', 'wellbores', 'surfaceplant', 'economics')) for nm in (d['name'], d.get('display_name')) if nm}
     for sec, label, toks, ind, val in R.scalar_lines(it['text']):
+        if label in base and base[label] not in js:
+            out.append((f'json:missing:{label}', f'the report prints "{label}" but the .json has no entry "{base[label]}"', ' '.join(toks), None))
         p = by.get(label)
-        if p is None or not toks or isinstance(p.get('value'), (list, dict, str)) or p.get('value') is None:
+        if p is None or not toks or isinstance(p.get('value'), (list, dict, str, bool)) or p.get('value') is None:
             continue
-        jv, pv = p['value'], R.num(toks[0])
-        n += 1
+        jv = p['value']
         if label == 'Investment Tax Credit':
             jv = -jv                       # printed with the opposite sign by design of the report
-        if pv is None:
-            ok = toks[0] == 'N/A' and jv <= 0
-        else:
-            dec = len(toks[0].replace(',', '').split('.')[1]) if '.' in toks[0] else 0
-            ok = abs(pv - jv) <= 0.5 * 10 ** -dec + 1e-12 * abs(jv) + 1e-15
-        uok = len(toks) < 2 or ' '.join(toks[1:]) in uv.get(p.get('CurrentUnits'), set()) | uv.get(p.get('PreferredUnits'), set())
-        if not ok or not uok:
-            cls = 'addons' if p.get('Name') in add_names else 'value' if not ok else 'unit'
-            out.append((f'json:{cls}:{label}', f'the .json entry "{p.get("Name")}" is not the quantity the report prints as "{label}"'
-                        + (' (the add-on / S-DAC-GT economics object overwrites the same-named entry of the base economics)'
-                           if cls == 'addons' else ''), ' '.join(toks), {'value': p['value'], 'CurrentUnits': p.get('CurrentUnits')}))
-    return out, n
+        cls = 'addons' if p.get('Name') in add_names else 'value'
+        what = (f'the .json entry "{p.get("Name")}" is not the quantity the report prints as "{label}"'
+                + (' (the add-on / S-DAC-GT economics object overwrites the same-named entry of the base economics)' if cls == 'addons' else ''))
+        if toks[0] == 'N/A':
+            if jv > 0:
+                out.append((f'json:{cls}:{label}', what, 'N/A', jv))
+        elif jv == jv and abs(jv) != float('inf'):
+            cmp.append((f'json:{cls}:{label}', what, toks[0].replace(',', ''), jv))
+        if len(toks) >= 2 and ' '.join(toks[1:]) not in uv.get(p.get('CurrentUnits'), set()) | uv.get(p.get('PreferredUnits'), set()):
+            out.append((f'json:unit:{label}', f'the .json entry "{p.get("Name")}" has another unit than the report line "{label}"',
+                        ' '.join(toks[1:]), [p.get('CurrentUnits'), p.get('PreferredUnits')]))
+    return out, cmp
 
 
 # ------------------------------------------------------------------------------------------ kernel correspondence
@@ -283,7 +338,8 @@ def correspondence(ctx, proofs_ok=True):
         by_seed = dict(zip(SEEDS, ex.map(lambda s: R.parse_many(ctx, texts, s, workers=6), SEEDS)))
     results = by_seed[0]
     uv = unit_values()
-    nfields = ncells = njson = 0
+    nfields = ncells = 0
+    jcmp = []
     sigs = set()
     for idx, (it, res) in enumerate(zip(items, results)):
         viol = oracle(ctx, it, res, fields, heads)
@@ -295,9 +351,9 @@ def correspondence(ctx, proofs_ok=True):
                              f'the client returns different results under PYTHONHASHSEED=0 and {s} (fields {diff})',
                              'the same result for every hash seed', diff))
         if it['origin'] == 'run':
-            jv, n = json_oracle(it, uv)
+            jv, cmp = json_oracle(it, uv)
             viol += jv
-            njson += n
+            jcmp += [(it, c) for c in cmp]
         seen = set()
         for key, what, exp, obs in viol:
             if key in seen:
@@ -309,7 +365,16 @@ def correspondence(ctx, proofs_ok=True):
             filled = [n for c, n, _, _ in fields if res['result'][c].get(n) is not None]
             nfields += len(filled)
             ncells += sum(len(r) for k in TABLE_KEYS if k in res['result'] for r in res['result'][k][1:])
-            sigs.add((it['origin'], tuple(sorted(set(filled)))[:400].__hash__(), tuple(k in res['result'] for k in TABLE_KEYS)))
+            sigs.add((it['origin'], hashlib.md5('|'.join(sorted(set(filled))).encode()).hexdigest()[:10], tuple(k in res['result'] for k in TABLE_KEYS)))
+    # the rounding relation between a .json quantity and the printed figure is decided by Coq (json_agrees)
+    from fractions import Fraction
+    njson = len(jcmp)
+    bad = fw.kernel_bools(ctx, 'json', ['Model.ResultParser'],
+                          [f'json_agrees {qconv.q(Fraction(c[3]))} {R.CS(c[2])}' for _, c in jcmp], open_scope='string_scope')
+    for i in bad:
+        it, (key, what, tok, jv) = jcmp[i]
+        ctx.violate('property', key, f'{what} [{it["id"]}]', inp={'id': it['id'], 'text': it['text'], 'input': it.get('input')},
+                    expected=tok, observed=jv)
     ctx.count('client-vs-tokenisation', evaluations=nfields + ncells + njson, nontrivial_keys=sigs,
               origin={o: sum(1 for i in items if i['origin'] == o) for o in ('corpus', 'stored', 'run', 'synthetic')})
     ctx.count('client-vs-tokenisation', fields_compared=nfields, table_cells_compared=ncells, json_quantities_compared=njson)
@@ -346,6 +411,27 @@ def _observed(res, fields, c):
     return None
 
 
+def search(ctx):
+    """model / proofs / tables broke but no report violated the property yet: look for a failing report
+    (i) around the reports on which model and client disagree, (ii) one line per label the writers can print"""
+    fields, heads, names = c10_tables.client_tables()
+    bases = [v.inp['text'] for v in ctx.violations if v.kind == 'corr' and isinstance(v.inp, dict) and v.inp.get('text')][:6]
+    texts = [R.synthesize(ctx.rng, b) for b in bases for _ in range(30)] + bases
+    try:
+        labels, _ = c10_tables.writer_lines()
+        texts += ['\n' + ' ' * ind + lab + (':' if k == 0 else ' =') + '            12.34 unit\n' for ind, lab, k in sorted(labels)]
+    except Exception as e:  # noqa
+        ctx.note(f'search: writer labels unavailable: {e!r}')
+    found = 0
+    for t, r in zip(texts, R.parse_many(ctx, texts, 0)):
+        for key, what, exp, obs in oracle(ctx, {'id': 'search', 'origin': 'synthetic', 'legacy': True, 'text': t}, r, fields, heads):
+            if key.split(':')[0] in ('field', 'table', 'csv', 'constructor') and not key.endswith('Economic Model:missing'):
+                ctx.violate('property', key, what + ' [found by search]', inp={'id': 'search', 'text': t}, expected=exp, observed=obs)
+                found += 1
+        if found >= 5:
+            break
+
+
 def replay(ctx, data):
     fields, heads, names = c10_tables.client_tables()
     inp = data['input']
@@ -358,7 +444,11 @@ def replay(ctx, data):
     res = per_seed[0]
     viol = oracle(ctx, it, res, fields, heads)
     if it.get('json'):
-        viol += json_oracle(it, unit_values())[0]
+        from fractions import Fraction
+        jv, cmp = json_oracle(it, unit_values())
+        badj = fw.kernel_bools(ctx, 'json', ['Model.ResultParser'],
+                               [f'json_agrees {qconv.q(Fraction(c[3]))} {R.CS(c[2])}' for c in cmp], open_scope='string_scope')
+        viol += jv + [cmp[i] for i in badj]
     for key, what, exp, obs in viol:
         print(f'implementation vs report text: {key}: {what}\n   report says: {exp}\n   client says: {obs}')
         bad += 1
